@@ -66,6 +66,25 @@ func (watcher *RequestWatcher) AddRequest(req *Request) {
 	watcher.expireMapMutex.Unlock()
 }
 
+// AddRequestIfRoom registers the request unless maxCount requests are already being
+// watched. The check and the registration are one atomic step, so concurrent arrivals
+// cannot both take the last slot.
+func (watcher *RequestWatcher) AddRequestIfRoom(req *Request, maxCount int64) bool {
+	watcher.requestsMapMutex.Lock()
+	if watcher.requestCount.Load() >= maxCount {
+		watcher.requestsMapMutex.Unlock()
+		return false
+	}
+	watcher.requestCount.Add(1)
+	watcher.requests[req.GetID()] = req
+	watcher.requestsMapMutex.Unlock()
+
+	watcher.expireMapMutex.Lock()
+	watcher.requestsExpireAt[req.GetID()] = req.GetExpireAt()
+	watcher.expireMapMutex.Unlock()
+	return true
+}
+
 func (watcher *RequestWatcher) RemoveFromWatchList(requestID string) {
 	watcher.requestCount.Add(-1)
 
